@@ -259,7 +259,7 @@ impl MerkleTree {
                 .position(|root| root.index == parent.index);
             if let Some(r) = r {
                 for i in 0..r {
-                    tree_offset += self.roots[i].length;
+                    tree_offset += changeset.roots[i].length;
                 }
                 return Ok(Either::Right(tree_offset));
             }
